@@ -41,6 +41,42 @@ def _linstr(e):
     return (0, {expr_str(e): 1})
 
 
+_wrapper_cache = {}
+
+
+def alloc_wrappers(u):
+    """Static functions whose non-NULL result is a block obtained from the allocate / reallocate hook with the size given by one
+    of their parameters (a growth/shrink helper shared by ensure() and print()): name -> index of the size parameter."""
+    if id(u) in _wrapper_cache:
+        return _wrapper_cache[id(u)]
+    out = {}
+    for h in u.function_list:
+        if not h.static:
+            continue
+        pidx = {p['d']: i for i, p in enumerate(h.params)}
+        rets = [strip_casts(x['e']) for x in h.nodes() if x.get('k') == 'return' and 'e' in x and not is_null_const(x['e'])]
+        if not rets or any(r.get('k') != 'ref' or r.get('dk') != 'local' for r in rets):
+            continue
+        ds = {r['d'] for r in rets}
+        if len(ds) != 1:
+            continue
+        d = next(iter(ds))
+        defs = [a['r'] for a in assignments(h) if is_ref(a['l']) and strip_casts(a['l'])['d'] == d]
+        defs += [x['init'] for x in h.locals() if x['d'] == d and 'init' in x]
+        defs = [strip_casts(r) for r in defs if not is_null_const(r)]
+        ks = set()
+        for r in defs:
+            if r.get('k') == 'call' and callee_name(r) is None and indirect_field(r) in ('allocate', 'reallocate') and r['args']:
+                a = strip_casts(r['args'][-1])
+                ks.add(pidx.get(a.get('d')) if a.get('k') == 'ref' else None)
+            else:
+                ks.add(None)
+        if defs and len(ks) == 1 and None not in ks:
+            out[h.name] = next(iter(ks))
+    _wrapper_cache[id(u)] = out
+    return out
+
+
 def _fresh_write_ok(node, base, size):
     """A write into a block of `size` bytes allocated in this function stays inside it."""
     S = _linstr(size)
@@ -70,6 +106,82 @@ def _fresh_write_ok(node, base, size):
             return True, 'index %s < size %s' % (expr_str(idx) if not isinstance(idx, int) else idx, expr_str(size))
         return False, 'index not shown to be below the block size %s' % expr_str(size)
     return False, 'unrecognised write'
+
+
+def wrapper_copy_bounds(u, h):
+    """[(memcpy call, [candidate upper bounds of its length])] for the copies a size-taking allocation helper makes into the block
+    it returns; min(a, b) is bounded by either arm."""
+    out = []
+    for c in h.calls():
+        if callee_name(c) == 'memcpy' and len(c['args']) == 3:
+            n = strip_casts(c['args'][2])
+            if n.get('k') == 'cond':
+                cc = strip_casts(n['c'])
+                if cc.get('k') == 'bin' and cc['op'] in ('<', '<=', '>', '>='):
+                    sides = {expr_str(strip_casts(cc['l'])), expr_str(strip_casts(cc['r']))}
+                    arms = {expr_str(strip_casts(n['t'])), expr_str(strip_casts(n['e']))}
+                    small = n['t'] if cc['op'] in ('<', '<=') else n['e']
+                    if sides == arms and expr_str(strip_casts(small)) == expr_str(strip_casts(cc['l'])):
+                        out.append((c, [n['t'], n['e']]))
+                        continue
+            out.append((c, [c['args'][2]]))
+    return out
+
+
+def _wrapper_copy_sites(u, h, call, szp, R):
+    """The copy inside helper h (block size = its parameter szp) is bounded when, at every call site, the size argument is at
+    least one of the copy's upper bounds with the helper's parameters replaced by the arguments.  The call site in ensure() is
+    decided by OUT4 with the conditions of the path; others by comparing linear forms."""
+    bounds = [bs for (c, bs) in wrapper_copy_bounds(u, h) if c is call]
+    if not bounds:
+        return False, 'copy length not understood'
+    bounds = bounds[0]
+    pi = [i for i, p in enumerate(h.params) if p['d'] == szp['d']][0]
+    pnames = {p['n']: i for i, p in enumerate(h.params)}
+    sites = [(g, c) for g in u.function_list for c in g.calls() if callee_name(c) == h.name]
+    if not sites:
+        return False, 'helper without call sites'
+    notes = []
+    for (g, c) in sites:
+        if g.name == 'ensure':
+            notes.append('ensure: OUT4')
+            continue
+        S = _linstr(c['args'][pi])
+        ok = False
+        for bnd in bounds:
+            txt = expr_str(strip_casts(bnd))
+            # textual substitution of parameter names by argument texts (arguments here are plain names)
+            import re
+            for n_, i_ in pnames.items():
+                a = strip_casts(c['args'][i_])
+                if a.get('k') == 'ref':
+                    txt = re.sub(r'(?<![A-Za-z0-9_>.])%s(?![A-Za-z0-9_])' % re.escape(n_), a['n'], txt)
+            want = _linstr_text(txt)
+            if want is not None and want[1] == S[1] and want[0] <= S[0]:
+                ok = True
+        if not ok:
+            return False, 'at the call in %s the size %s is not shown to cover the %s bytes copied' % (
+                g.name, expr_str(strip_casts(c['args'][pi])), ' / '.join(expr_str(strip_casts(b_)) for b_ in bounds))
+        notes.append('%s: size covers the copy' % g.name)
+    return True, 'block size is the parameter %s; the copy is bounded at every call site (%s)' % (szp['n'], '; '.join(notes))
+
+
+def _linstr_text(txt):
+    """(const, {atom: coeff}) of a textual sum like `buffer->offset + 1`"""
+    txt = txt.replace(' ', '').replace('->', '\x01')
+    if not txt:
+        return None
+    c = 0
+    atoms = {}
+    import re
+    for sign, term in re.findall(r'([+-]?)([^+-]+)', txt):
+        sg = -1 if sign == '-' else 1
+        term = term.strip('()').replace('\x01', '->')
+        if re.fullmatch(r'\d+', term):
+            c += sg * int(term)
+        else:
+            atoms[term] = atoms.get(term, 0) + sg
+    return (c, {k: v for k, v in atoms.items() if v})
 
 
 # ---- OUT1 ----------------------------------------------------------------------------------------------------------------------
@@ -113,10 +225,18 @@ def out1(units, R):
         fresh = {}
         for d, rs in defs.items():
             nn = [strip_casts(r) for r in rs if not is_null_const(r)]
-            if nn and all(r.get('k') == 'call' and callee_name(r) is None and indirect_field(r) in ('allocate', 'reallocate') for r in nn):
-                sizes = {expr_str(strip_casts(r['args'][-1])) for r in nn}
+            wr = alloc_wrappers(u)
+
+            def size_arg(r):
+                if r.get('k') == 'call' and callee_name(r) is None and indirect_field(r) in ('allocate', 'reallocate'):
+                    return strip_casts(r['args'][-1])
+                if r.get('k') == 'call' and callee_name(r) in wr and wr[callee_name(r)] < len(r['args']):
+                    return strip_casts(r['args'][wr[callee_name(r)]])
+                return None
+            if nn and all(size_arg(r) is not None for r in nn):
+                sizes = {expr_str(size_arg(r)) for r in nn}
                 if len(sizes) == 1:
-                    fresh[d] = strip_casts(nn[0]['args'][-1])
+                    fresh[d] = size_arg(nn[0])
         for nd in fn.cfg().nodes:
             for ev in node_effects(nd):
                 tgt = None
@@ -143,6 +263,10 @@ def out1(units, R):
                     n += 1
                     if b['d'] in fresh:
                         okf, whyf = _fresh_write_ok(node, b, fresh[b['d']])
+                        szp = fresh[b['d']]
+                        if not okf and szp.get('k') == 'ref' and szp.get('dk') == 'param' and fn.name in alloc_wrappers(u) and \
+                                node.get('k') == 'call' and callee_name(node) == 'memcpy':
+                            okf, whyf = _wrapper_copy_sites(u, fn, node, szp, R)
                         R.ob('OUT1', fn, node, 'write into the block %s allocated here' % b['n'], okf, whyf, key='freshwrite:%s' % b['n'])
                         continue
                     ok = b['d'] in good
@@ -165,7 +289,8 @@ def out4(units, R):
     p = fn.params[0]
     needed = fn.params[1]
     # 1. noalloc gate dominates every allocator call
-    allocs = [c for c in fn.calls() if callee_name(c) is None and indirect_field(c) in ('allocate', 'reallocate')]
+    wr = alloc_wrappers(u)
+    allocs = [c for c in fn.calls() if (callee_name(c) is None and indirect_field(c) in ('allocate', 'reallocate')) or callee_name(c) in wr]
     for c in allocs:
         node = node_containing(cfg, c)
 
@@ -177,8 +302,8 @@ def out4(units, R):
         ok = guarded_by(cfg, node.id, gate)
         R.ob('OUT4', fn, c, 'growth by %s only when noalloc is clear' % expr_str(c['fn']), ok,
              'reachable only through the false edge of p->noalloc' if ok else 'the caller-supplied buffer could be reallocated/replaced',
-             key='noalloc-gate:%s' % indirect_field(c))
-    R.floor('OUT4', 'allocator calls in ensure', len(allocs), 2)
+             key='noalloc-gate:%s' % (indirect_field(c) or callee_name(c)))
+    R.floor('OUT4', 'allocator calls in ensure', len(allocs), 1 if any(callee_name(c) in wr for c in allocs) else 2)
     # 2./3. what a non-NULL result promises, decided path by path with linear expressions over needed / offset / length
     _ensure_contract(u, fn, cfg, R)
     # 4. PrintPreallocated set-up
@@ -321,8 +446,40 @@ def _ensure_contract(u, fn, cfg, R):
                 name = 'NEW%d' % e['id']
                 st.alloc[name] = size if isinstance(size, Lin) else None
                 return ('ptr', name, Lin(0))
+            wr_ = alloc_wrappers(u)
+            if callee_name(e) in wr_ and wr_[callee_name(e)] < len(e['args']):
+                # a helper that returns a block of the size it is given (or NULL); what it copies into the block must fit
+                h = u.functions[callee_name(e)]
+                size = ev(e['args'][wr_[callee_name(e)]], st)
+                name = 'NEW%d' % e['id']
+                st.alloc[name] = size if isinstance(size, Lin) else None
+                pb = [p for p, a in zip(h.params, e['args']) if strip_casts(a).get('k') == 'ref' and strip_casts(a).get('d') == pd]
+                for (mc, bounds) in wrapper_copy_bounds(u, h):
+                    okb = False
+                    if isinstance(size, Lin) and pb:
+                        for b_ in bounds:
+                            bv = ev_as(b_, st, pb[0]['d'])
+                            if isinstance(bv, Lin) and entails(st.cons, bv.add(size, -1)):
+                                okb = True
+                    copies.append((e, mc, okb, h.name))
+                return ('ptr', name, Lin(0))
             return ('opaque', expr_str(e)[:30])
         return ('opaque', expr_str(e)[:30])
+
+    def ev_as(e, st, other_pd):
+        """ev() of an expression of a helper whose print-buffer parameter (declaration other_pd) is ensure's own"""
+        import copy as _copy
+
+        def ren(x):
+            if isinstance(x, list):
+                return [ren(y) for y in x]
+            if not isinstance(x, dict):
+                return x
+            y = {k: ren(v) for k, v in x.items()}
+            if y.get('k') == 'ref' and y.get('d') == other_pd:
+                y['d'] = pd
+            return y
+        return ev(ren(e), st)
 
     def assign(lhs, val, st):
         l = strip_casts(lhs)
@@ -381,6 +538,7 @@ def _ensure_contract(u, fn, cfg, R):
         """some fact X <= 0 on the path gives target <= 0 (target <= X coefficient-wise, all symbols being non-negative)"""
         return any(target.leq(c) for c in cons) or target.leq(Lin(0))
     wraps = []
+    copies = []
     st0 = S()
     st0.env = {nd: N}
     st0.fld = {'offset': O, 'length': L, 'buffer': ('ptr', 'BUF0', Lin(0))}
@@ -478,6 +636,18 @@ def _ensure_contract(u, fn, cfg, R):
         R.ob('OUT4', fn, node.stmt, 'the offset was valid (inside a non-empty buffer)', okv,
              'offset < length or length == 0 holds on this path' if okv else 'offset >= length is not refused on this path', key='refusal:offset')
     R.floor('OUT4', 'non-NULL results of ensure', n_ok, 2)
+    seen_c = {}
+    for (e, mc, okb, hname) in copies:
+        k = (e['id'], mc['id'])
+        seen_c[k] = seen_c.get(k, True) and okb
+    for (e, mc, _okb, hname) in copies:
+        k = (e['id'], mc['id'])
+        if k not in seen_c:
+            continue
+        okb = seen_c.pop(k)
+        R.ob('OUT4', fn, e, 'what %s copies into the new block fits the size it is given' % hname, okb,
+             'on every path to the call the size covers %s' % expr_str(strip_casts(mc['args'][2]))[:50] if okb else
+             'the size handed to %s is not shown to cover %s' % (hname, expr_str(strip_casts(mc['args'][2]))[:50]), key='wrapper-copy:%s' % hname)
 
 
 # ---- TAB2 print funnel ------------------------------------------------------------------------------------------------------------------
@@ -525,8 +695,12 @@ def tab2_print(units, R):
             a = c['args'][-1]
             sizes.append((indirect_field(c), expr_str(strip_casts(a))))
     final = [s for (f, s) in sizes if 'offset' in s]
-    R.ob('TAB2', pf, None, 'print(): the realloc arm and the allocate+copy arm return blocks of the same size', len(final) == 2 and final[0] == final[1],
-         'sizes %s' % final, key='print-final-size')
+    wr = alloc_wrappers(u)
+    via = [expr_str(strip_casts(c['args'][wr[callee_name(c)]])) for c in pf.calls() if callee_name(c) in wr and wr[callee_name(c)] < len(c['args'])]
+    via = [s for s in via if 'offset' in s]
+    okf = (len(final) == 2 and final[0] == final[1]) or (not final and len(via) == 1)
+    R.ob('TAB2', pf, None, 'print(): the realloc arm and the allocate+copy arm return blocks of the same size', okf,
+         'sizes %s' % (final or ['%s (both arms inside one helper that takes the size)' % via[0]] if via else final), key='print-final-size')
     R.floor('TAB2', 'print entry points', len(entries), 4)
 
 
